@@ -320,6 +320,19 @@ def run(ctx):
   cells = list({json.dumps(c, sort_keys=True): c for c in g.prints.get('CELL', [])}.values())
   if not cells:
     raise tlc.MachineryError('HnpGrid produced no cell')
+  # every LCG model the library ships (curve x generator size), at exactly the number of signatures the model declares sufficient
+  shim.install()
+  from paranoid_crypto.lib import lcg_constants as lc
+  nc_ = gen.named_curves()
+  name_of = {v[0]: k for k, v in nc_.items()}
+  have = {(c['curve'], c['bias'], c['count']) for c in cells if c['cls'] == 'lcg'}
+  for m_ in lc.CONSTANT_FACTORY:
+    if m_['lcg'] == lc.LcgName.GMP and m_['curve'] in name_of:
+      for off in ((0,) if ctx.quick else (0, 3)):
+        key = (name_of[m_['curve']], int(m_['lcg_output_size']), off)
+        if key not in have:
+          have.add(key)
+          cells.append({'cls': 'lcg', 'curve': key[0], 'bias': key[1], 'count': off, 'partner': 'none', 'order': 'grouped', 'dups': 0, 'hash': 'sha256'})
   insts = 1 if ctx.quick else 2
   jobs = [(c, i) for c in cells for i in range(insts)]
   if ctx.only_sid:
